@@ -217,3 +217,6 @@ Proof.
   - intros Hin. apply in_app_or in Hin as [Hin|Hin]; [contradiction | apply (Hd y); [left; reflexivity | exact Hin]].
   - apply IH; auto.
 Qed.
+
+Lemma filter_length_le {A} (f : A -> bool) (l : list A) : length (filter f l) <= length l.
+Proof. induction l as [|a l IH]; simpl; [lia|]. destruct (f a); simpl; lia. Qed.
